@@ -35,6 +35,7 @@ struct Shared {
   int max_overlap = 0;
   long clock = 0;
   long stop_begin = -1;  // logical time at which a stop call began (-1: never)
+  long final_stop_begin = -1;  // logical time of the closing Stop() after a SoftStop run
   bool after_wait = false;
   const char* err = nullptr;
   int submit_during_batch = 0;
@@ -112,6 +113,7 @@ struct RunOut {
   const char* err = nullptr;
   int called = 0, dropped = 0;
   int nontrivial = 0;
+  int reused = 0;
 };
 
 void RunCase(Explorer& ex, const Config& cf, RunOut& out) {
@@ -282,6 +284,7 @@ void RunCase(Explorer& ex, const Config& cf, RunOut& out) {
         }
         tp->Stop();
       } else if (cf.stop == kSoftStop) {
+        sh.final_stop_begin = ++sh.clock;
         tp->Stop();  // SoftStop may only have recorded the wish; all submitters are done now
       }
       tp->Wait();
@@ -316,6 +319,7 @@ void RunCase(Explorer& ex, const Config& cf, RunOut& out) {
       return;
     }
     if (j.rounds > 1) {
+      ++out.reused;
       out.called += j.calls;
       out.dropped += j.drops;
       if (j.drops > 0 && !any_refusal_possible) {
@@ -334,6 +338,16 @@ void RunCase(Explorer& ex, const Config& cf, RunOut& out) {
         j.submit_end < sh.stop_begin && cf.under == kPool && cf.stop != kHardStop) {
       out.err = "pool job accepted before Stop/SoftStop began was Dropped";
       return;
+    }
+    if (child && cf.under == kPool && cf.stop == kSoftStop && j.drops > 0 && j.submit_end >= 0 &&
+        (sh.final_stop_begin < 0 || j.submit_end < sh.final_stop_begin)) {  // (its Submit returned before the closing Stop began)
+      // the parent was accepted and is running while it submits the child: the pool has not been idle since the parent
+      // was accepted, so a SoftStop cannot have taken effect yet ("stops only when no job is queued or running")
+      TJob& parent = *all[static_cast<std::size_t>(j.seq)];
+      if (parent.rounds == 1 && parent.calls == 1) {
+        out.err = "SoftStop stopped the pool while a job was running: a job submitted from inside a running job was Dropped";
+        return;
+      }
     }
     if (cf.pool_checks && cf.under == kPool) {
       if (!j.dropped_at_submit_return && j.drops > 0 && cf.stop != kHardStop) {
@@ -478,6 +492,18 @@ class ExecFamily : public vf::Family {
       v.tags.push_back(kUnderName[cf.under]);
       if (out.dropped > 0) {
         v.tags.push_back("some-job-dropped");
+      }
+      if (cf.under <= kStrand2Pool) {
+        v.tags.push_back(vf::Intern(std::string("stop:") + kStopName[cf.stop]));
+      }
+      if (cf.split && cf.submitters >= 2) {
+        v.tags.push_back("odd-submitters-feed-inner-strand");
+      }
+      if (out.reused > 0) {
+        v.tags.push_back("job-node-resubmitted-after-finish");
+      }
+      if (cf.resub_mask != 0) {
+        v.tags.push_back("jobs-resubmit-children");
       }
       char b[96];
       std::snprintf(b, sizeof b, "called=%d dropped=%d switches=%u", out.called, out.dropped, ex.switches);
